@@ -134,6 +134,15 @@ func (c *Client) handleAcceptVersion(msg protocol.Message) error {
 		)
 	}
 	msgAcceptVersion := msg.(*MsgAcceptVersion)
+	// The peer may only accept a version that we proposed
+	proposedVersionData, ok := c.config.ProtocolVersionMap[msgAcceptVersion.Version]
+	if !ok {
+		return fmt.Errorf(
+			"%s: peer accepted protocol version %d that was not proposed",
+			ProtocolName,
+			msgAcceptVersion.Version,
+		)
+	}
 	protoVersion := protocol.GetProtocolVersion(msgAcceptVersion.Version)
 	if protoVersion.NewVersionDataFromCborFunc == nil {
 		return fmt.Errorf(
@@ -146,6 +155,17 @@ func (c *Client) handleAcceptVersion(msg protocol.Message) error {
 	)
 	if err != nil {
 		return err
+	}
+	// The accepted version data must carry our own network magic
+	if proposedVersionData != nil && versionData != nil &&
+		versionData.NetworkMagic() != proposedVersionData.NetworkMagic() {
+		return fmt.Errorf(
+			"%s: peer accepted protocol version %d with network magic %d, expected %d",
+			ProtocolName,
+			msgAcceptVersion.Version,
+			versionData.NetworkMagic(),
+			proposedVersionData.NetworkMagic(),
+		)
 	}
 	return c.config.FinishedFunc(
 		c.callbackContext,
